@@ -93,7 +93,7 @@ func allQueries() []query {
 		{52, "main", prefix + `RETURN LENGTH(c.children)`},
 		{60, "wattr", `LET d = PARSE(@h) LET e = ELEMENT(d, @s) ATTR_SET(e, @k, @v) RETURN [ATTR_GET(e, @k, ` + an + `), (FOR x IN ELEMENTS(d, @s) RETURN ATTR_GET(x, @k)), ATTR_GET(ELEMENT(d, @s), @k, ` + an + `)]`},
 		{61, "wstyle", `LET d = PARSE(@h) LET e = ELEMENT(d, @s) STYLE_SET(e, @k, @v) RETURN [STYLE_GET(e, @k, ` + sn + `), (FOR x IN ELEMENTS(d, @s) RETURN STYLE_GET(x, @k)), STYLE_GET(ELEMENT(d, @s), @k, ` + sn + `)]`},
-		{62, "wtext", `LET d = PARSE(@h) LET e = ELEMENT(d, @s) INNER_TEXT_SET(e, @t) RETURN [INNER_TEXT(e), INNER_TEXT(d), INNER_TEXT_ALL(d, @s), ELEMENTS_COUNT(d, @s)]`},
+		{62, "wtext", `LET d = PARSE(@h) LET e = ELEMENT(d, @s) INNER_TEXT_SET(e, @t) RETURN [INNER_TEXT(e), INNER_TEXT(d), INNER_TEXT_ALL(d, @s), ELEMENTS_COUNT(d, @s), INNER_HTML(e), LENGTH(ELEMENT(d, @s).children), INNER_TEXT(d, @s)]`},
 		{63, "whtml", `LET d = PARSE(@h) LET e = ELEMENT(d, @s) INNER_HTML_SET(e, @f) RETURN [INNER_HTML(e), INNER_TEXT(d), (FOR x IN ELEMENTS(d, @s) RETURN x.attributes["data-n"])]`},
 	}
 	return qs
@@ -103,6 +103,7 @@ type unitReq struct {
 	ID    int               `json:"id"`
 	Group string            `json:"group"`
 	P     map[string]string `json:"p"` // h c s x xc k v t f
+	Prog  string            `json:"prog,omitempty"` // group "hist": the program of one history (result under id 64)
 }
 
 type qres struct {
@@ -147,6 +148,23 @@ func worker() {
 		var req unitReq
 		Must(json.Unmarshal(line, &req))
 		resp := unitResp{ID: req.ID, Res: map[int]qres{}}
+		if req.Group == "hist" {
+			p, cerr := comp.Compile(req.Prog)
+			if cerr != nil {
+				fmt.Fprintln(os.Stderr, "harness error: history program does not compile:", cerr, req.Prog)
+				os.Exit(3)
+			}
+			opts := []runtime.Option{runtime.WithLog(Discard)}
+			for k, v := range req.P {
+				opts = append(opts, runtime.WithParam(k, v))
+			}
+			res, rerr := p.Run(ctx, opts...)
+			if rerr != nil {
+				resp.Res[64] = qres{Err: errClass(rerr), Msg: rerr.Error()}
+			} else {
+				resp.Res[64] = qres{Out: string(res)}
+			}
+		}
 		for _, q := range qs {
 			if q.Group != req.Group {
 				continue
